@@ -38,6 +38,13 @@ NOLEAK = {"ASAN_OPTIONS": "detect_leaks=0:abort_on_error=0:exitcode=99"}
 
 
 # ---------------------------------------------------------------------------------- systems (independent copy)
+NB = {"point": 2, "uni": 2, "dint": 4, "car": 2, "ode": 2, "dpoint": 2}      # bounded reals
+NR = {"point": 2, "uni": 3, "dint": 4, "car": 3, "ode": 3, "dpoint": 2}      # reals per state
+# `dpoint`: first-order point with a DiscreteControlSpace; control = (value, 0); eight headings, total in the value
+DPX = [1.0, 0.0, -1.0, 0.0, 0.75, -0.75, -0.75, 0.75]
+DPY = [0.0, 1.0, 0.0, -1.0, 0.75, 0.75, -0.75, -0.75]
+
+
 class Sys:
     def __init__(self, kind, lo, hi, clo, chi, dt, mn, mx):
         self.kind, self.lo, self.hi, self.clo, self.chi = kind, list(map(float, lo)), list(map(float, hi)), \
@@ -48,7 +55,7 @@ class Sys:
 
     @property
     def nreals(self):
-        return {"point": 2, "uni": 3, "dint": 4, "car": 3, "ode": 3}[self.kind]
+        return NR[self.kind]
 
     def toks(self):
         return [self.kind] + [B(x) for x in self.lo + self.hi + self.clo + self.chi] + [B(self.dt), str(self.mn0), str(self.mx0)]
@@ -67,6 +74,9 @@ def wrap_so2(x):
 
 
 def sys_step(kind, s, u, dt):
+    if kind == "dpoint":
+        k = int(u[0]) % 8
+        return [s[0] + DPX[k] * dt, s[1] + DPY[k] * dt]
     if kind == "point":
         return [s[0] + u[0] * dt, s[1] + u[1] * dt]
     if kind == "uni":
@@ -110,7 +120,7 @@ def sys_dist(kind, a, b):
             x = a[i] - b[i]
             d += x * x
         return math.sqrt(d)
-    if kind == "point":
+    if kind in ("point", "dpoint"):
         return rv(2)
     if kind == "dint":
         return rv(4)
@@ -215,9 +225,11 @@ def parse_solution(line, nreals):
 
 
 # ---------------------------------------------------------------------------------- the spec oracle
-def oracle(pb, sol):
+def oracle(pb, sol, cb_hull=None):
     """every clause of C02 on one reported solution; returns (failures, stats).  failures: list of
-    dict(clause, seg, detail)."""
+    dict(clause, seg, detail).  cb_hull = (lo, hi): the control bounds to judge the controls against when the planner was
+    NOT cleared since an earlier setBounds (its tree legitimately still holds controls drawn under the earlier bounds):
+    the hull of the bounds in force since the last clear(); None = the current bounds pb.sy.clo / chi."""
     fails = []
     stats = {"segments": 0, "steps": 0, "exact_bits": 0, "within_tol": 0, "below_min": 0, "above_max": 0, "zero_steps": 0}
     sy = pb.sy
@@ -255,8 +267,10 @@ def oracle(pb, sol):
         if k == 0:
             stats["zero_steps"] += 1
         u = C[i]
-        if not (sy.clo[0] <= u[0] <= sy.chi[0] and sy.clo[1] <= u[1] <= sy.chi[1]):
-            fails.append({"clause": "control-bounds", "seg": i, "detail": "control %s outside [%s, %s]" % (u, sy.clo, sy.chi)})
+        blo, bhi = cb_hull if cb_hull else (sy.clo, sy.chi)
+        if not (blo[0] <= u[0] <= bhi[0] and blo[1] <= u[1] <= bhi[1]) or (sy.kind == "dpoint" and u[0] != math.floor(u[0])):
+            fails.append({"clause": "control-bounds", "seg": i, "detail": "control %s outside the control-space bounds [%s, %s]%s" % (
+                u, blo, bhi, "" if not cb_hull or (blo, bhi) == (sy.clo, sy.chi) else " (hull of the bounds since the last clear(); current [%s, %s])" % (sy.clo, sy.chi))})
         s = list(S[i])
         bad_step = None
         for j in range(1, k + 1):
@@ -306,6 +320,9 @@ def make_sys(kind, variant):
     fl(fl(k*h)/h) can be just below k) and long durations (up to 100 steps); 6: minControlDuration = maxControlDuration;
     7: min = max = 0 (the library then assumes [1, 10]) together with a degenerate control bound (low = high)"""
     v = variant % 8
+    if kind == "dpoint":
+        dt, mn, mx = [(0.25, 1, 10), (0.1, 2, 6), (0.3, 1, 4), (0.7, 1, 12), (0.1, 1, 60), (0.22847, 1, 30), (0.25, 3, 3), (0.3, 0, 0)][v]
+        return Sys("dpoint", WORLD[0], WORLD[1], [3.0 if v == 7 else 0.0, 0.0], [3.0 if v == 7 else 7.0, 0.0], dt, mn, mx)
     if kind == "point":
         dt, mn, mx = [(0.25, 1, 10), (0.1, 2, 6), (0.3, 1, 4), (0.7, 1, 12), (0.1, 1, 100), (0.22847, 1, 30), (0.25, 3, 3), (0.3, 0, 0)][v]
         return Sys("point", WORLD[0], WORLD[1], [-1.0, -1.0], [1.0, 1.0], dt, mn, mx)
@@ -323,7 +340,7 @@ def make_sys(kind, variant):
 
 
 def full_state(kind, xy, rng=None):
-    if kind == "point":
+    if kind in ("point", "dpoint"):
         return list(xy)
     if kind in ("uni", "car", "ode"):
         return list(xy) + [rng.uniform(-3.0, 3.0) if rng else 0.5]
@@ -379,8 +396,8 @@ def parse_plan_line(line):
     t = line.split()
     off = 2 if t[0] == "plan" else 1
     kind = t[off]
-    nb = {"point": 2, "uni": 2, "dint": 4, "car": 2, "ode": 2}[kind]
-    nr = {"point": 2, "uni": 3, "dint": 4, "car": 3, "ode": 3}[kind]
+    nb = NB[kind]
+    nr = NR[kind]
     i = off + 1
     fl = [F(x) for x in t[i:i + 2 * nb + 4]]
     i += 2 * nb + 4
@@ -477,7 +494,7 @@ def pwv_oracle(line, out):
         return None
     head, _, cnt = out.partition(" | ")
     kind = t[1]
-    nb = {"point": 2, "uni": 2, "dint": 4, "car": 2}[kind]
+    nb = NB[kind]
     i = 2 + 2 * nb + 4 + 3
     form = t[i]
     i += 1
@@ -567,8 +584,8 @@ def parse_path_line(line):
     """`<op> SYS ENV <n> states controls durations` -> (op, Sys, boxes, S, C, D)"""
     t = line.split()
     kind = t[1]
-    nb = {"point": 2, "uni": 2, "dint": 4, "car": 2, "ode": 2}[kind]
-    nr = {"point": 2, "uni": 3, "dint": 4, "car": 3, "ode": 3}[kind]
+    nb = NB[kind]
+    nr = NR[kind]
     i = 2
     fl = [F(x) for x in t[i:i + 2 * nb + 4]]
     i += 2 * nb + 4
